@@ -174,7 +174,7 @@ def l1_run(tree, ch, res):
                 v = (classify(path, obs[path], want, tree), f"context {path}: recorded {obs[path]}, its requests span {want}; requests {sorted(truth.items())}")
                 break
     res.case(
-        case_repr={"L1_tree": repr(tree), "schedule": list(ch.choices)} if res.evaluations % 30011 == 3 else None,
+        case_repr={"L1_tree": repr(tree), "schedule": list(ch.choices)} if res.sample_now(30011) else None,
         nontrivial_key=("L1", repr(tree), tuple(ch.choices)) if count_leaves(tree) >= 2 else None,
         outcome_key=("L1", tuple(sorted(obs.values(), key=repr))[:3], v[0] if v else "ok"),
     )
@@ -321,7 +321,7 @@ def l2_run(cfg, ch, res):
         CLOCK.stop()
     nops = len(list(flatten_ops(requests)))
     res.case(
-        case_repr={"L2_composite": requests, "max-connections": maxconn, "schedule": list(ch.choices)} if res.evaluations % 1009 == 5 else None,
+        case_repr={"L2_composite": requests, "max-connections": maxconn, "schedule": list(ch.choices)} if res.sample_now(1009) else None,
         nontrivial_key=("L2", si, kinds, maxconn, tuple(ch.choices)) if nops >= 2 else None,
         outcome_key=("L2", name, v[0] if v else "ok", len(ch.choices)),
     )
@@ -367,7 +367,7 @@ def l3_run(cfg, ch, res):
     finally:
         CLOCK.stop()
     res.case(
-        case_repr={"L3_client_0": req_a, "L3_client_1": req_b, "offset": offset} if res.evaluations % 499 == 5 else None,
+        case_repr={"L3_client_0": req_a, "L3_client_1": req_b, "offset": offset} if res.sample_now(499) else None,
         nontrivial_key=("L3", cfg, tuple(ch.choices)),
         outcome_key=("L3", v[0] if v else "ok", len(ch.choices)),
     )
